@@ -8,7 +8,7 @@ import (
 	"os"
 	"path/filepath"
 	"sync"
-	"sync/atomic"
+	"time"
 	"testing"
 
 	snes "github.com/alttpo/snes"
@@ -56,7 +56,19 @@ func memDigest(d *digest, m *rig.Mem) {
 }
 
 // c18Run executes one workload on freshly created instances and returns a digest of every observable.
-func c18Run(w c18Work) (h uint64, err error) {
+func c18Run(w c18Work, rendezvous func()) (h uint64, err error) {
+	// ready() is called once the workload's instances exist: in the concurrent phase it blocks until every workload
+	// of the round is set up, so that the measured sections really run at the same time
+	called := false
+	ready := func() {
+		if !called {
+			called = true
+			if rendezvous != nil {
+				rendezvous()
+			}
+		}
+	}
+	defer ready()
 	defer func() {
 		if p := recover(); p != nil {
 			err = fmt.Errorf("workload %s(seed %d) panicked: %v", w.Kind, w.Seed, p)
@@ -74,6 +86,7 @@ func c18Run(w c18Work) (h uint64, err error) {
 		sys.Logger = &log
 		var wdm []byte
 		sys.CPU.OnWDM = func(b byte) { wdm = append(wdm, b) }
+		ready()
 		ret := sys.RunUntil(0xEE1234, uint64(w.N))
 		d.add(ret, fmt.Sprint(cpu.Raw()), log.Bytes(), wdm)
 		memDigest(&d, mem)
@@ -87,6 +100,7 @@ func c18Run(w c18Work) (h uint64, err error) {
 			sys.SRAM[i] = rig.Mix(w.Seed^1, uint32(i))
 			sys.WRAM[i] = rig.Mix(w.Seed^2, uint32(i))
 		}
+		ready()
 		for i := 0; i < w.N; i++ {
 			bank := []uint32{0x00, 0x01, 0x80, 0x81, 0x70, 0xF1, 0x7E, 0x7F, 0x3F, 0xBF}[rig.Mix(w.Seed, uint32(3*i))%10]
 			off := uint32(rig.Mix(w.Seed, uint32(3*i+1)))<<8 | uint32(rig.Mix(w.Seed, uint32(3*i+2)))
@@ -113,6 +127,7 @@ func c18Run(w c18Work) (h uint64, err error) {
 		mem := rig.NewMem(w.Seed)
 		cpu.SetMem(mem)
 		cpu.LoadRaw(c18State(w.Seed))
+		ready()
 		for i := 0; i < w.N; i++ {
 			if w.Kind == "pri" {
 				d.add(cpu.Disasm())
@@ -140,12 +155,13 @@ func c18Run(w c18Work) (h uint64, err error) {
 		ma := rig.NewMem(w.Seed)
 		a.SetMem(ma)
 		a.LoadRaw(c18State(w.Seed))
+		b, ref := mk(), mk()
+		ready()
 		for i := 0; i < w.N/2; i++ {
 			if _, _, p := a.Step(); p != nil {
 				break
 			}
 		}
-		b := mk()
 		switch bb := b.(type) {
 		case *rig.Primary:
 			bb.C.InitFrom(a.(*rig.Primary).C, bb.Bus)
@@ -155,7 +171,6 @@ func c18Run(w c18Work) (h uint64, err error) {
 		}
 		mb := ma.Clone()
 		b.SetMem(mb)
-		ref := mk()
 		mr := ma.Clone()
 		ref.SetMem(mr)
 		ref.LoadRaw(a.Raw())
@@ -185,12 +200,16 @@ func c18Run(w c18Work) (h uint64, err error) {
 		memDigest(&d, mb)
 	case "emitter":
 		em := asm.NewEmitter(make([]byte, needOf(w.Ops)+8), true)
+		ready()
 		for _, o := range w.Ops {
 			r, p := asmcat.ApplyReal(em, o)
 			d.add(r, fmt.Sprint(p))
 		}
-		var tb, hb bytes.Buffer
-		d.add(fmt.Sprint(em.WriteTextTo(&tb)), fmt.Sprint(em.WriteHexTo(&hb)), tb.Bytes(), hb.Bytes())
+		for rep := 0; rep < 40; rep++ { // listed repeatedly so that the listing code of two emitters really overlaps in time
+			var tb, hb bytes.Buffer
+			e1, e2 := em.WriteTextTo(&tb), em.WriteHexTo(&hb)
+			d.add(e1 == nil, e2 == nil, tb.Bytes(), hb.Bytes())
+		}
 		cl := em.Clone(make([]byte, 16))
 		cl.NOP()
 		// which failing reference Finalize names (and what it patched before failing) depends on map order even
@@ -205,6 +224,7 @@ func c18Run(w c18Work) (h uint64, err error) {
 		for i := range img {
 			img[i] = rig.Mix(w.Seed, uint32(i))
 		}
+		ready()
 		r, e := snes.NewROM("c18", img)
 		if e != nil {
 			return 0, e
@@ -221,6 +241,7 @@ func c18Run(w c18Work) (h uint64, err error) {
 		}
 		d.add(r.Contents)
 	case "pure":
+		ready()
 		for i := 0; i < w.N; i++ {
 			a := uint32(rig.Mix(w.Seed, uint32(4*i)))<<16 | uint32(rig.Mix(w.Seed, uint32(4*i+1)))<<8 | uint32(rig.Mix(w.Seed, uint32(4*i+2)))
 			for _, m := range mappers {
@@ -245,47 +266,57 @@ type c18Stats struct{ maxSameKind int32 }
 func c18Check(c c18Case, st *c18Stats) error {
 	seq := make([]uint64, len(c.Work))
 	for i, w := range c.Work {
-		h, err := c18Run(w)
+		h, err := c18Run(w, nil)
 		if err != nil {
 			return fmt.Errorf("sequential run: %v", err)
 		}
 		seq[i] = h
 		// determinism of the workload itself (a second sequential run)
 		if i < 2 || w.Kind == "emitter" || w.Kind == "rom" || w.Kind == "pure" {
-			if h2, _ := c18Run(w); h2 != h {
+			if h2, _ := c18Run(w, nil); h2 != h {
 				return fmt.Errorf("workload %d %s(seed %d) is not deterministic even sequentially: %x vs %x", i, w.Kind, w.Seed, h, h2)
 			}
 		}
 	}
 	par := make([]uint64, len(c.Work))
 	errs := make([]error, len(c.Work))
-	var wg sync.WaitGroup
-	start := make(chan struct{})
-	inflight := map[string]*int32{}
-	for _, w := range c.Work {
-		if inflight[w.Kind] == nil {
-			inflight[w.Kind] = new(int32)
-		}
-	}
-	var maxSame int32
+	// start/end times are written to per-workload slots and evaluated afterwards: no atomics or locks are shared
+	// between the workload goroutines, because any such synchronisation would order them for the race detector
+	// (happens-before) and hide conflicting accesses of workloads that did not literally overlap
+	t0s := make([]time.Time, len(c.Work))
+	t1s := make([]time.Time, len(c.Work))
+	var wg, setup sync.WaitGroup
+	start, goCh := make(chan struct{}), make(chan struct{})
+	setup.Add(len(c.Work))
 	for i, w := range c.Work {
 		wg.Add(1)
 		go func(i int, w c18Work) {
 			defer wg.Done()
 			<-start
-			n := atomic.AddInt32(inflight[w.Kind], 1)
-			for {
-				m := atomic.LoadInt32(&maxSame)
-				if n <= m || atomic.CompareAndSwapInt32(&maxSame, m, n) {
-					break
-				}
-			}
-			par[i], errs[i] = c18Run(w)
-			atomic.AddInt32(inflight[w.Kind], -1)
+			par[i], errs[i] = c18Run(w, func() {
+				setup.Done()
+				<-goCh // released when every workload of the round has built its instances
+				t0s[i] = time.Now()
+			})
+			t1s[i] = time.Now()
 		}(i, w)
 	}
 	close(start)
+	setup.Wait()
+	close(goCh)
 	wg.Wait()
+	var maxSame int32
+	for i, w := range c.Work {
+		n := int32(1)
+		for j, v := range c.Work {
+			if j != i && v.Kind == w.Kind && t0s[j].Before(t1s[i]) && t0s[i].Before(t1s[j]) {
+				n++
+			}
+		}
+		if n > maxSame {
+			maxSame = n
+		}
+	}
 	if st != nil {
 		st.maxSameKind = maxSame
 	}
@@ -354,7 +385,7 @@ func TestC18(t *testing.T) {
 					}
 					switch w.Kind {
 					case "system":
-						w.N = rapid.IntRange(50, 600).Draw(t, "cycles")
+						w.N = rapid.IntRange(200, 1500).Draw(t, "cycles")
 					case "pri", "alt", "prifork", "altfork":
 						w.N = rapid.IntRange(20, 200).Draw(t, "steps")
 					case "emitter":
